@@ -277,6 +277,29 @@ def obligations(tier):
     return obs
 
 
+def extra_obligations(tier):
+    """concrete companion sweep over NumPy-scalar bindings on the real NumPy (the model has no NumPy scalars, DESIGN 12.4);
+    reported separately: it is NOT a solver verdict"""
+    import subprocess, sys, json, os
+    root = os.path.dirname(os.path.dirname(os.path.dirname(os.path.abspath(__file__))))
+    try:
+        p = subprocess.run([sys.executable, "-W", "ignore", "-m", "vt.npscalars", "1" if tier == "quick" else "2"], capture_output=True, text=True,
+                           cwd=root, timeout=1800, env={**os.environ, "VT_MODE": "real"})
+        r = json.loads(p.stdout.strip().splitlines()[-1])
+    except Exception as e:
+        return [{"name": "numpy-scalar bindings (concrete sweep, real NumPy)", "status": "inconclusive", "why": "sweep failed: %r" % (e,)}]
+    name = "numpy-scalar bindings: %d (program, binding) cases compiled vs interpreted on real NumPy (concrete sweep, not a solver verdict)" % r["cases"]
+    if r["n_disagree"] == 0:
+        return [{"name": name, "status": "confirmed", "cases": r["cases"]}]
+    gen = os.path.join(root, ".gen", "replays"); os.makedirs(gen, exist_ok=True)
+    path = os.path.join(gen, "C05-npscalars.json")
+    json.dump(r, open(path, "w"), indent=1)
+    c = r["disagree"][0]
+    return [{"name": name, "status": "violated", "call": "%s with a=%s b=%s" % (c["prog"], c["a"], c["b"]),
+             "message": "compiled %s vs interpreted %s" % (c["compiled"], c["interpreted"]), "replay": path,
+             "real": "compiled %s vs interpreted %s" % (c["compiled"], c["interpreted"])}]
+
+
 def finding_class(prog, ka, kb):
     """(IR node kind, binding kind) key used by known findings"""
     node = "scan" if "\\" in prog else "reduce" if "/" in prog else "power" if "^" in prog else "divide" if "%" in prog else \
